@@ -80,6 +80,7 @@ var (
 	fCorrupt = flag.Int("corrupt", 200, "number of seeded corruptions in the pool")
 	fChurn   = flag.Int("churn", 200, "number of identifier-churn inputs in the pool")
 	fLarge   = flag.Int("large", 8, "number of large / deeply nested inputs in the pool")
+	fExtra   = flag.String("extra", "", "file with coverage-grown inputs (output of -mode grow, merged)")
 	fW       = flag.Int("w", 0, "worker index")
 	fOf      = flag.Int("of", 1, "number of workers")
 	fFrom    = flag.Int64("from", 0, "first run index (work: index = from + w + k*of)")
@@ -130,6 +131,10 @@ func main() {
 		err = modeExport()
 	case "first":
 		err = modeFirst()
+	case "grow":
+		err = modeGrow()
+	case "growmerge":
+		err = modeGrowMerge()
 	case "minimise":
 		err = modeMinimise()
 	case "replaycheck":
@@ -146,6 +151,13 @@ func main() {
 func setupPool() error {
 	if *fRoot == "" {
 		return fmt.Errorf("need -root")
+	}
+	if *fExtra != "" {
+		ex, err := loadExtra(*fExtra)
+		if err != nil {
+			return err
+		}
+		extraInputs = ex
 	}
 	return buildPool(*fRoot, *fSeed, *fCorrupt, *fChurn, *fLarge)
 }
@@ -534,7 +546,7 @@ const longSlots = 48
 func workLoop(st *stats, refs *refTable, c workCfg, side *sideWriter) {
 	prefix := func(last int64) *SeededPrefix {
 		return &SeededPrefix{Seed: c.seed, First: c.first, Stride: c.stride, Last: last, Corrupt: *fCorrupt, Churn: *fChurn, Large: *fLarge,
-			Worker: c.worker, Verify: c.verify}
+			Worker: c.worker, Verify: c.verify, Extra: extraInputs}
 	}
 	if c.verify > 0 {
 		verifySlice(st, refs, c.worker%c.verify, c.verify, false, "at the start of a worker process")
@@ -646,6 +658,7 @@ func replayPrefixSerial(rf *ReplayFile) error {
 		return fmt.Errorf("a seeded-prefix replay needs -root")
 	}
 	*fCorrupt, *fChurn, *fLarge = p.Corrupt, p.Churn, p.Large
+	extraInputs = p.Extra
 	if err := buildPool(*fRoot, p.Seed, p.Corrupt, p.Churn, p.Large); err != nil {
 		return err
 	}
@@ -654,7 +667,15 @@ func replayPrefixSerial(rf *ReplayFile) error {
 		return err
 	}
 	defer os.RemoveAll(dir)
-	refs, err := refsViaChildren(dir, []string{"-root", *fRoot, "-seed", fmt.Sprint(p.Seed), "-corrupt", fmt.Sprint(p.Corrupt), "-churn", fmt.Sprint(p.Churn), "-large", fmt.Sprint(p.Large)})
+	childArgs := []string{"-root", *fRoot, "-seed", fmt.Sprint(p.Seed), "-corrupt", fmt.Sprint(p.Corrupt), "-churn", fmt.Sprint(p.Churn), "-large", fmt.Sprint(p.Large)}
+	if len(p.Extra) > 0 {
+		ef := filepath.Join(dir, "extra.json")
+		if err := writeJSON(ef, p.Extra); err != nil {
+			return err
+		}
+		childArgs = append(childArgs, "-extra", ef)
+	}
+	refs, err := refsViaChildren(dir, childArgs)
 	if err != nil {
 		return err
 	}
@@ -1104,6 +1125,7 @@ func replayPrefix(rf *ReplayFile) error {
 	if *fRoot == "" {
 		return fmt.Errorf("a seeded-prefix replay needs -root")
 	}
+	extraInputs = p.Extra
 	if err := buildPool(*fRoot, p.Seed, p.Corrupt, p.Churn, p.Large); err != nil {
 		return err
 	}
